@@ -2,4 +2,16 @@
 (* Emission wrapper: prints every completed function body as one JSON line. *)
 EXTENDS ScopeGen, Json
 EmitDone == done => PrintT(ToJson([prog |-> Prog]))
+
+\* the loop-exit slice: only bodies in which a break sits inside a try statement or a suppressing with
+RECURSIVE BreakUnder(_, _)
+BreakUnder(block, insupp) ==
+    \E i \in 1..Len(block) :
+        LET s == block[i]
+        IN \/ s.k = "break" /\ insupp
+           \/ s.k \in {"if", "while", "for"} /\ (BreakUnder(s.body, insupp) \/ BreakUnder(s.orelse, insupp))
+           \/ s.k = "with" /\ BreakUnder(s.body, insupp \/ s.supp)
+           \/ s.k = "try" /\ (BreakUnder(s.body, TRUE) \/ BreakUnder(s.orelse, TRUE) \/ BreakUnder(s.final, TRUE)
+                              \/ \E j \in 1..Len(s.handlers) : BreakUnder(s.handlers[j], TRUE))
+EmitLoopExit == (done /\ BreakUnder(Prog, FALSE) /\ UsesOf(Prog) # {}) => PrintT(ToJson([prog |-> Prog]))
 =============================================================================
